@@ -394,7 +394,13 @@ def gen_wellformed(rnd, shape, idx=0):
     initial = rnd.choice(leaves)
     forest = assign_data(rnd, forest, shape.data, initial, shape.super_data)
     # transitions: deterministic per (event, leaf)
-    evnames = rnd.sample(EVENT_POOL, shape.nevents)
+    # event names are sampled without a PascalCase collision (`step2`/`step_2`): that class is the known finding
+    # F5a, exercised by its own probes (ties_k3b.k3_known_probes), not by the well-formed corpus
+    evnames, seen_pc = [], set()
+    for en in rnd.sample(EVENT_POOL, len(EVENT_POOL)):
+        if len(evnames) < shape.nevents and to_pascal(en) not in seen_pc:
+            evnames.append(en)
+            seen_pc.add(to_pascal(en))
     events = []
     hook_ctr = [0]
 
